@@ -193,11 +193,15 @@ func bsWorldGen(r *Run, rng *Rng, w *bsWorld, steps int, allowRm bool) {
 				w.exec(r, fmt.Sprintf("q exitroot %d", dcBefore-1)) // the last lookup before the reorg …
 			}
 			haltedBefore := w.p.IsHalted()
+			var lastStored uint64 // the last block row of the store (block numbers may skip)
+			must(w.p.DB().QueryRow("SELECT COALESCE(MAX(num), 0) FROM block").Scan(&lastStored))
+			var nRemoved int
+			must(w.p.DB().QueryRow("SELECT COUNT(*) FROM block WHERE num >= $1", b).Scan(&nRemoved))
 			w.exec(r, fmt.Sprintf("reorg %d", b))
 			r.Count("branch:reorg")
-			if haltedBefore && b >= g.first && b <= g.tip && w.p.IsHalted() {
+			if haltedBefore && nRemoved > 0 && w.p.IsHalted() {
 				// a node that only ever saw the blocks below b is not halted and serves data
-				r.Fail(fmt.Sprintf("[C04,C14] a reorg from block %d removed processed blocks (the store ended at %d) and the bridge syncer is still halted: its queries keep failing where a node that never saw those blocks answers", b, g.tip), append([]string{"new"}, w.lines...))
+				r.Fail(fmt.Sprintf("[C04,C14] a reorg from block %d removed processed blocks (the store ended at %d) and the bridge syncer is still halted: its queries keep failing where a node that never saw those blocks answers", b, lastStored), append([]string{"new"}, w.lines...))
 			}
 			if b <= g.tip {
 				r.Count("branch:reorg-removes")
